@@ -210,7 +210,11 @@ func (c *Ctx) finish(start time.Time, seed int, fatal error) int {
 	}
 	sort.SliceStable(c.Obls, func(i, j int) bool { return c.Obls[i].Key() < c.Obls[j].Key() })
 
-	repDir := filepath.Join(c.VerifDir, "reports", p.ID)
+	outBase := c.VerifDir
+	if outDirGlobal != "" {
+		outBase = outDirGlobal
+	}
+	repDir := filepath.Join(outBase, "reports", p.ID)
 	os.RemoveAll(repDir)
 	nviol, nknown, ndis := 0, 0, 0
 	exit := 0
@@ -287,8 +291,8 @@ func (c *Ctx) finish(start time.Time, seed int, fatal error) int {
 		ev.Assumptions = []string{}
 	}
 	b, _ := json.MarshalIndent(ev, "", " ")
-	os.MkdirAll(filepath.Join(c.VerifDir, "evidence"), 0o755)
-	if err := os.WriteFile(filepath.Join(c.VerifDir, "evidence", p.ID+".json"), b, 0o644); err != nil {
+	os.MkdirAll(filepath.Join(outBase, "evidence"), 0o755)
+	if err := os.WriteFile(filepath.Join(outBase, "evidence", p.ID+".json"), b, 0o644); err != nil {
 		fmt.Printf("cannot write evidence: %v\n", err)
 		exit = 1
 	}
